@@ -5,7 +5,7 @@ import ast
 from fractions import Fraction
 
 from ..tyob import *  # noqa
-from ..tyob import analyse, expect, item, unmodelled_in
+from ..tyob import analyse, expect, item, unmodelled_in, no_int_arith
 from ..poly import Normaliser, Poly, straightline_env
 from ..program import norm_stmt
 
@@ -176,10 +176,15 @@ def run(chk):
     chk.ob("R-IDX", cd + "{turning test}", "a turning point is a strictly negative product of successive differences",
            len(cm) == 1 and cm[0].op == "Lt" and cm[0].right.has_const() and cm[0].right.const == 0 and alg_degree(cm[0].left.a(R)) == Exp(2) and
            "diff" in cm[0].left.tags, derived="%s" % [(e.op, alg_str(e.left.a(R))) for e in cm], loc=cm[0].loc if cm else r.fi.loc())
+    # the detector enforces a float copy ("enforce array type"): with fixed-width integer samples the successive differences and their
+    # products must not be formed in the integer dtype (they wrap around and turning points are lost or invented)
+    for pt in ("all", "max"):
+        no_int_arith(chk, "R-IDX", GP, lambda I, st, fi, pt=pt: dict(values=rec_array("values", dtype="int"), ptype=const_av(pt)),
+                     "eqsig/fns/peaks_and_crossings.py:get_peak_array_indices(ptype=%s, integer samples)" % pt, what="integer-typed samples")
     ncyc_rules(chk)
     chk.floor("R-PARTITION", 3)
     chk.floor("R-CLEANED", 1)
-    chk.floor("R-IDX", 6)
+    chk.floor("R-IDX", 8)
     chk.floor("R-NCYC", 8)
 
 
